@@ -178,6 +178,31 @@ def run(tier, seed):
                 res.violate(msg, {"check": "syntax", "text": text, "edit": tag})
                 if len(res.violations) >= 5:
                     break
+        # the environment must not matter before the syntax stage has spoken: the same ungrammatical texts in fresh interpreters
+        # whose working directory has been removed, and under another hash seed
+        import subproc
+        bad = [t for tag, t in cases if tag == "hand" and t.strip()][:30] + [t for tag, t in cases if tag not in ("hand", "base")][:30]
+        bad = [t for t in bad if "\x00" not in t]
+        verdicts = {}
+        for t in bad:
+            try:
+                mt = model.lex(t)
+                kinds = [k[0] for k in mt if k[0] not in gr.skip_types] + [0]
+                verdicts[t] = model.recognise(kinds)
+            except fw.ModelError:
+                verdicts[t] = None
+        bad = [t for t in bad if verdicts[t] is False]
+        for cwd_, seed_ in (("@removed", "0"), (None, "7")):
+            outs = subproc.run_batch([{"kind": "loads", "text": t} for t in bad], seed_, cwd_)
+            for t, o in zip(bad, outs):
+                res.count("environment:%s" % ("removed-cwd" if cwd_ else "seed-7"))
+                if o.get("out") != "error" or o.get("cls") != "BlackbirdSyntaxError":
+                    ok = False
+                    res.violate("an ungrammatical script %s instead of raising BlackbirdSyntaxError when %s"
+                                % ("is accepted" if o.get("out") == "ok" else "raises %s" % o.get("cls"),
+                                   "the working directory no longer exists" if cwd_ else "PYTHONHASHSEED=7"),
+                                {"check": "syntax-env", "text": t, "cwd": cwd_, "seed": seed_})
+                    break
         res.oblige("correspondence: syntax-stage verdict = grammar membership, and every ungrammatical string raises BlackbirdSyntaxError at a token not before the first bad one", "correspondence", ok)
         model.close()
     else:
@@ -191,6 +216,11 @@ def run(tier, seed):
 def replay(rep):
     import impl
     from gram import Grammar
+    if rep["input"].get("check") == "syntax-env":
+        import subproc
+        o = subproc.run_batch([{"kind": "loads", "text": rep["input"]["text"]}], rep["input"]["seed"], rep["input"]["cwd"])[0]
+        print(o.get("out"), o.get("cls"))
+        return 0 if (o.get("out") == "error" and o.get("cls") == "BlackbirdSyntaxError") else 1
     fw.build()
     model = fw.Model()
     res = Result(PROP, "quick", 0)
